@@ -37,7 +37,10 @@ def concretise(v, strs):
     if t == 'pair':
         # lookups name real fields of the model the value is attached to
         key = {'a': 'beta', 'b': 'alpha'}.get(v['s'], v['s'])
-        return (key, concretise(items[0], strs))
+        val = concretise(items[0], strs)
+        if isinstance(val, (list, tuple)):
+            key += '__in'
+        return (key, val)
     if t == 'q':
         children = [concretise(x, strs) for x in items]
         q = Q(*children)
@@ -72,8 +75,11 @@ def position_of(v):
     return 'field_attr'
 
 
-def build_signature(value, position):
-    """A project signature that holds `value` at `position`."""
+def build_signature(value, position, via='direct'):
+    """A project signature that holds `value` at `position`; via='objects'
+    builds the index / constraint signatures from real Django Index and
+    constraint objects (IndexSignature.from_index, ConstraintSignature.
+    from_constraint), the way signatures of installed models are built."""
     from django.db import models
     from django_evolution.signature import (AppSignature, ConstraintSignature,
                                             FieldSignature, IndexSignature,
@@ -89,7 +95,27 @@ def build_signature(value, position):
         attrs['db_column'] = value
     msig.add_field_sig(FieldSignature('alpha', models.CharField, attrs))
     msig.add_field_sig(FieldSignature('beta', models.IntegerField, {'null': True}))
-    if position == 'condition':
+    if via == 'objects':
+        if position == 'condition':
+            msig.add_index_sig(IndexSignature.from_index(
+                models.Index(fields=['alpha'], name='ix_cond', condition=value)))
+            msig.add_constraint_sig(ConstraintSignature.from_constraint(
+                models.CheckConstraint(check=value, name='ck')))
+        elif position == 'expression':
+            msig.add_index_sig(IndexSignature.from_index(models.Index(value, name='ix_expr')))
+            msig.add_index_sig(IndexSignature.from_index(
+                models.Index(value, models.F('alpha'), name='ix_expr2')))
+        elif position == 'deferrable':
+            msig.add_constraint_sig(ConstraintSignature.from_constraint(
+                models.UniqueConstraint(fields=('alpha',), name='uq', deferrable=value)))
+        elif position == 'include':
+            msig.add_index_sig(IndexSignature.from_index(
+                models.Index(fields=['-alpha', 'beta'], name='ix_inc', include=value)))
+            msig.add_constraint_sig(ConstraintSignature.from_constraint(
+                models.UniqueConstraint(fields=('alpha',), name='uq2', include=value)))
+        else:
+            raise NotApplicable(position)
+    elif position == 'condition':
         msig.add_index_sig(IndexSignature(fields=['alpha'], name='ix_cond',
                                           attrs={'condition': value}))
         msig.add_constraint_sig(ConstraintSignature('ck', models.CheckConstraint,
@@ -110,15 +136,26 @@ def build_signature(value, position):
     return ps
 
 
-def storage_round_trip(value, position, through_db):
+class NotApplicable(Exception):
+    pass
+
+
+def storage_round_trip(value, position, through_db, via='direct'):
     """Returns dict of observations for C06."""
     from django_evolution.diff import Diff
     from django_evolution.models import Version
     from django_evolution.signature import ProjectSignature
     obs = {}
     try:
-        sig = build_signature(value, position)
+        sig = build_signature(value, position, via)
         text1 = json.dumps(sig.serialize(), sort_keys=True)
+    except NotApplicable:
+        return None
+    except (ValueError, TypeError) as e:
+        if via == 'objects':
+            return None         # Django itself refuses this index / constraint definition
+        obs['write_error'] = '%s: %s' % (type(e).__name__, e)
+        return obs
     except Exception as e:
         obs['write_error'] = '%s: %s' % (type(e).__name__, e)
         return obs
